@@ -833,6 +833,15 @@ impl<K, S> Rodeo<K, S> {
 ///
 /// [`Spur`]: crate::Spur
 /// [`RandomState`]: index.html#cargo-features
+#[cfg(lasso_verif)]
+impl<K, S> Rodeo<K, S> {
+    /// Verification hook (read-only): `(address, capacity, used)` of every storage block
+    #[doc(hidden)]
+    pub fn verif_blocks(&self) -> Vec<(usize, usize, usize)> {
+        self.arena.verif_blocks()
+    }
+}
+
 impl Default for Rodeo<Spur, RandomState> {
     #[cfg_attr(feature = "inline-more", inline)]
     fn default() -> Self {
